@@ -387,6 +387,30 @@ impl Wal {
 		self.active_writer.sync()
 	}
 
+	/// Length of the active segment once everything appended so far has been written out.
+	pub(crate) fn position(&mut self) -> Result<u64> {
+		self.active_writer.write_buffer()?;
+		Ok(self.sync_fd.metadata()?.len())
+	}
+
+	/// Cuts the active segment back to `len` (a value returned by `position`) and reopens
+	/// the writer there. Used when an append or its sync has failed: the commit reports the
+	/// error, so its record must not stay in the log and be replayed by the next recovery.
+	pub(crate) fn rollback_to(&mut self, len: u64) -> Result<()> {
+		// The old writer may still hold bytes of the failed record in its buffer, and
+		// dropping it writes them out: take it out of the way first, then cut.
+		let (fresh, _) = Self::create_writer(&self.dir, self.active_log_number, &self.opts)?;
+		drop(std::mem::replace(&mut self.active_writer, fresh));
+		self.sync_fd.set_len(len)?;
+		// The fresh writer does not know that the segment may hold records that were never
+		// synced (it would skip the fsync a rotation owes them): sync what is left now.
+		self.sync_fd.sync_all()?;
+		let (writer, sync_fd) = Self::create_writer(&self.dir, self.active_log_number, &self.opts)?;
+		self.active_writer = writer;
+		self.sync_fd = sync_fd;
+		Ok(())
+	}
+
 	/// Flushes buffered WAL data to OS cache (not to disk).
 	/// For durability, call sync() instead.
 	pub(crate) fn flush(&mut self) -> Result<()> {
